@@ -1,6 +1,9 @@
 /* C08: mutual exclusion, truthful try-acquire, FIFO (queuing_mutex), no lost hand-off.
  * LOCK: 1 spin_mutex, 2 queuing_mutex, 6 rtm_mutex (speculative spin mutex, fallback path; SPEC = governor::speculation_enabled()) ; NT threads (2|3) ; OPi: 0 blocking acquire, 1 try ; ROUNDS free rounds */
 #include "w.h"
+#if LOCK == 6
+#define VP_OWN_YIELD      /* h_rtm_stubs.h: a system call inside a transaction aborts it */
+#endif
 #include "vp.h"
 #if LOCK == 1 && defined(DATA)
 #define THR(s) vp_thr_sm_d_##s
@@ -15,7 +18,12 @@ struct S_class_tbb__detail__d1__queuing_mutex M;
 struct S_class_tbb__detail__d1__spin_mutex M;
 #define WORD() vp_sm_word(&M)
 #elif LOCK == 6
+#ifdef DATA      /* every holder reads the word pair vp_A, vp_B and increments both */
+#define THR(s) vp_thr_rtm_d_##s
+#define vp_data vp_A
+#else
 #define THR(s) vp_thr_rtm_##s
+#endif
 struct S_class_tbb__detail__d1__rtm_mutex M;
 #define WORD() vp_rtm_word(&M)
 #define INIT() vp_rtm_init(&M, SPEC)
@@ -26,6 +34,12 @@ struct S_class_tbb__detail__d1__queuing_mutex M;
 #define WORD() vp_qm_word(&M)
 #endif
 #define CAT(a,b) a##b
+#ifndef VP_TXCHK
+#define VP_TXCHK(t)
+#endif
+#if LOCK == 6 && defined(DATA)
+void vp_data_read(u32 tid, u64 a, u64 b) { VP_ASSERT(a == b, "holder sees half of another holder's update of the protected word pair"); }
+#endif
 /* OPi: 0 blocking acquire, 1 try-acquire; spin_mutex only: 2 / 3 = the same through unique_scoped_lock (odd = try) */
 #define TRY0 ((OP0) & 1)
 #define TRY1 ((OP1) & 1)
@@ -67,12 +81,16 @@ int main(void) {
   THR(c_start)(&M, 2, OP2);
 #endif
   for (int r = 0; r < ROUNDS; r++) {
-    VP_RUN(THR(a)) OBS(0) VP_RUN(THR(b)) OBS(1)
+    VP_RUNT(THR(a), 0) VP_TXCHK(0) OBS(0) VP_RUNT(THR(b), 1) VP_TXCHK(1) OBS(1)
 #if NT == 3
-    VP_RUN(THR(c)) OBS(2)
+    VP_RUNT(THR(c), 2) VP_TXCHK(2) OBS(2)
 #endif
   }
-#if NT == 3
+#if NT == 3 && LOCK == 6
+  VP_QUIESCE3T(THR(a), THR(b), THR(c))
+#elif LOCK == 6
+  VP_QUIESCE2T(THR(a), THR(b))
+#elif NT == 3
   VP_QUIESCE3(THR(a), THR(b), THR(c))
 #else
   VP_QUIESCE2(THR(a), THR(b))
